@@ -236,10 +236,12 @@ def stack(arrs, axis=0):
     return SymArray(shape, get, dt)
 
 
-def concatenate(arrs, axis=0):
+def concatenate(arrs, axis=0, dtype=None):
     if hasattr(arrs, "pyvc_concatenate"):
         return arrs.pyvc_concatenate()
     arrs = [asarray(a) for a in arrs]
+    if dtype is not None:
+        arrs = [a.astype(dtype) for a in arrs]
     if axis != 0 or any(a.ndim != 1 for a in arrs):
         raise Undecided("concatenate other than 1-d along axis 0")
     if not arrs:
